@@ -21,24 +21,26 @@ REACH = ["_compute", "i_map", "od_reduce", "v", "vt", "w", "wt"]
 
 def floors(tier):
     q = tier == "quick"
-    return {"a/first": 1500 if q else 30000, "a/last": 1500 if q else 30000, "b/share": 20000 if q else 400000,
-            "c/order": 3000 if q else 60000, "c/draw": 3000 if q else 60000, "d/exchange": 1500 if q else 30000,
-            "e/identical": 1500 if q else 30000}
+    return {"a/first": 1500 if q else 750000, "a/last": 1500 if q else 750000, "b/share": 20000 if q else 10000000,
+            "c/order": 3000 if q else 1500000, "c/draw": 3000 if q else 1500000, "d/exchange": 1500 if q else 750000,
+            "e/identical": 1500 if q else 750000}
 
 
 def generate(ctx):
-    n = ctx.budget(9000, 150000)
+    n = ctx.budget(9000, 3750000)
     for it in range(n):
         m = ctx.rng.random()
         if m < 0.45:  # general games: clauses a, b
             regime = ctx.rng.choice(["mismatch", "mismatch", "mismatch", "typical", "wide", "huge_sigma", "tiny_sigma",
                                      "corners", "equal_size"])
-            case, meta = gen.gen_case(ctx.rng, regime=regime, int_only=True)
+            # every encoding of the outcome (ints, floats, huge values, scores): the clauses are about the weak order
+            case, meta = gen.gen_case(ctx.rng, regime=regime)
             yield "ab", dict(case=case, meta=meta)
         elif m < 0.65:  # two teams, three outcomes
             regime = ctx.rng.choice(["mismatch", "mismatch", "typical", "wide", "huge_sigma", "tiny_sigma", "identical"])
             case, meta = gen.gen_case(ctx.rng, regime=regime, kmax=2, int_only=True)
-            yield "wdl", dict(case=case, meta=meta)
+            enc, style = gen.encode_levels(ctx.rng, [0, 1])
+            yield "wdl", dict(case=case, meta=meta, enc=enc, as_scores=ctx.rng.random() < 0.3)
         elif m < 0.85:  # exchange of places
             model = ctx.rng.choice(["PlackettLuce", "BradleyTerryFull", "ThurstoneMostellerFull"])
             regime = ctx.rng.choice(["mismatch", "mismatch", "typical", "wide", "equal_size"])
@@ -127,9 +129,12 @@ def probe_wdl(ctx, payload):
     case, meta = payload["case"], payload["meta"]
     model, kind = case["model"], KIND[case["model"]]
     outs = {}
-    for name, ranks in (("win", [0, 1]), ("draw", [0, 0]), ("loss", [1, 0])):
+    lo, hi = (payload.get("enc") or [0, 1])
+    for name, ranks in (("win", [lo, hi]), ("draw", [lo, lo]), ("loss", [hi, lo])):
         c2 = dict(case)
         c2["sel"], c2["vals"] = "ranks", ranks
+        if payload.get("as_scores"):
+            c2["sel"], c2["vals"] = "scores", [(-int(v) if isinstance(v, bool) else -v) for v in ranks]
         r = run_case(c2)
         if r.exc is not None or r.shape_err:
             return _fail(ctx, "wdl", payload, r, model, meta.get("regime"))
